@@ -156,6 +156,108 @@ impl HttpRig {
         parse_response(&buf).ok_or_else(|| format!("no complete HTTP response ({} octets received, eof={eof})", buf.len()))
     }
 
+    /// Several GETs on ONE connection (HTTP/1.1 keep-alive); returns the status of each response
+    /// received (fewer than asked if the server closed the connection early).
+    pub fn get_seq(&mut self, via: Via, paths: &[&str]) -> Result<Vec<u16>, String> {
+        enum S {
+            T(TcpStream),
+            U(UnixStream),
+        }
+        let mut s = match via {
+            Via::V4(src) => S::T(crate::enet::connect_from(IpAddr::V4(src), SocketAddr::new("127.0.0.1".parse().unwrap(), self.port4))?),
+            Via::V6 => S::T(TcpStream::connect(("::1", self.port6)).map_err(|e| e.to_string())?),
+            Via::Mapped(src) => S::T(crate::enet::connect_from(IpAddr::V4(src), SocketAddr::new("127.0.0.1".parse().unwrap(), self.port_any))?),
+            Via::Unix => S::U(UnixStream::connect(&self.unix_path).map_err(|e| format!("unix connect: {e}"))?),
+        };
+        let reg_fd = match &s {
+            S::T(t) => {
+                t.set_nodelay(true).ok();
+                t.set_nonblocking(true).ok();
+                let fd = std::os::fd::AsRawFd::as_raw_fd(t);
+                crate::enet::register_tcp(fd);
+                Some(fd)
+            }
+            S::U(u) => {
+                u.set_nonblocking(true).ok();
+                None
+            }
+        };
+        struct Unreg(Option<i32>);
+        impl Drop for Unreg {
+            fn drop(&mut self) {
+                if let Some(fd) = self.0 {
+                    crate::enet::unregister_tcp(fd);
+                }
+            }
+        }
+        let _unreg = Unreg(reg_fd);
+        let mut out = vec![];
+        let mut buf: Vec<u8> = vec![];
+        let mut tmp = vec![0u8; 1 << 16];
+        for path in paths {
+            let req = format!("GET {path} HTTP/1.1\r\nHost: erbium\r\n\r\n");
+            let mut sent = 0;
+            let rb = req.as_bytes();
+            let mut spins = 0;
+            while sent < rb.len() {
+                let r = match &mut s {
+                    S::T(t) => t.write(&rb[sent..]),
+                    S::U(u) => u.write(&rb[sent..]),
+                };
+                match r {
+                    Ok(n) => sent += n,
+                    Err(e) if e.kind() == ErrorKind::WouldBlock || e.kind() == ErrorKind::Interrupted => {
+                        self.pump(2);
+                        spins += 1;
+                        if spins > 2000 {
+                            return Err("request could not be written".into());
+                        }
+                    }
+                    Err(_) => return Ok(out), // connection closed by the server
+                }
+            }
+            let mut eof = false;
+            let mut got = false;
+            for round in 0..200000 {
+                self.pump(3);
+                loop {
+                    let r = match &mut s {
+                        S::T(t) => t.read(&mut tmp),
+                        S::U(u) => u.read(&mut tmp),
+                    };
+                    match r {
+                        Ok(0) => {
+                            eof = true;
+                            break;
+                        }
+                        Ok(n) => buf.extend_from_slice(&tmp[..n]),
+                        Err(e) if e.kind() == ErrorKind::WouldBlock => break,
+                        Err(e) if e.kind() == ErrorKind::Interrupted => continue,
+                        Err(_) => {
+                            eof = true;
+                            break;
+                        }
+                    }
+                }
+                if let Some(len) = complete_len(&buf) {
+                    if let Some((status, _, _)) = parse_response(&buf[..len]) {
+                        out.push(status);
+                        got = true;
+                    }
+                    buf.drain(..len);
+                    break;
+                }
+                if eof || (round > 400 && buf.is_empty()) {
+                    break;
+                }
+            }
+            if !got {
+                break;
+            }
+        }
+        Ok(out)
+    }
+
     pub fn stop(self) -> Vec<panics::PanicInfo> {
         let dir = self.dir.clone();
         drop(self.dhcp);
@@ -174,6 +276,31 @@ fn complete(buf: &[u8]) -> bool {
         }
     }
     false
+}
+
+/// Length of the first complete response in `buf` (Content-Length or chunked framing).
+fn complete_len(buf: &[u8]) -> Option<usize> {
+    let p = find(buf, b"\r\n\r\n")?;
+    let head = String::from_utf8_lossy(&buf[..p]).to_ascii_lowercase();
+    if let Some(i) = head.find("content-length:") {
+        let n: usize = head[i + 15..].lines().next().unwrap_or("").trim().parse().ok()?;
+        return if buf.len() >= p + 4 + n { Some(p + 4 + n) } else { None };
+    }
+    if head.contains("transfer-encoding: chunked") {
+        let mut i = p + 4;
+        loop {
+            let e = find(&buf[i..], b"\r\n")? + i;
+            let sz = usize::from_str_radix(String::from_utf8_lossy(&buf[i..e]).trim(), 16).ok()?;
+            if sz == 0 {
+                return if buf.len() >= e + 4 { Some(e + 4) } else { None };
+            }
+            i = e + 2 + sz + 2;
+            if i > buf.len() {
+                return None;
+            }
+        }
+    }
+    None
 }
 
 fn find(h: &[u8], n: &[u8]) -> Option<usize> {
